@@ -291,7 +291,7 @@ Definition user_items (d : Defn) : list (string * bool * bool * option nat) :=
   map (fun (it : nat * ADef) =>
          (claim_label (ad_label (snd it)),
           match claim_kind (snd it) with KJson => true | _ => false end,
-          ad_created (snd it), Some (fst it)))
+          claim_created (snd it), Some (fst it)))
       (index_from 0 (d_assertions d)).
 
 Definition it_created (t : string * bool * bool * option nat) : bool := match t with (_, _, c, _) => c end.
@@ -323,7 +323,7 @@ Lemma visible_additions :
     d_auto_actions d = false -> hidden_hash_label h = true ->
     filter v_visible (map add_view (additions d h))
     = map (fun (it : nat * ADef) =>
-             (claim_label (ad_label (snd it)), claim_kind (snd it), ad_created (snd it), RUser, Some (fst it)))
+             (claim_label (ad_label (snd it)), claim_kind (snd it), claim_created (snd it), RUser, Some (fst it)))
           (index_from 0 (d_assertions d)).
 Proof.
   intros d h Ha Hh. unfold additions. rewrite Ha, andb_false_r.
@@ -362,11 +362,11 @@ Proof.
   rewrite (filter_filter_comm v_visible v_created), (filter_filter_comm v_visible (fun v => negb (v_created v))).
   rewrite (visible_additions d h Ha Hh).
   unfold user_items.
-  rewrite <- (filter_map_view (fun it : nat * ADef => (claim_label (ad_label (snd it)), claim_kind (snd it), ad_created (snd it), RUser, Some (fst it))) v_created).
-  rewrite <- (filter_map_view (fun it : nat * ADef => (claim_label (ad_label (snd it)), claim_kind (snd it), ad_created (snd it), RUser, Some (fst it))) (fun v => negb (v_created v))).
+  rewrite <- (filter_map_view (fun it : nat * ADef => (claim_label (ad_label (snd it)), claim_kind (snd it), claim_created (snd it), RUser, Some (fst it))) v_created).
+  rewrite <- (filter_map_view (fun it : nat * ADef => (claim_label (ad_label (snd it)), claim_kind (snd it), claim_created (snd it), RUser, Some (fst it))) (fun v => negb (v_created v))).
   rewrite !map_map. cbn [v_report v_created].
-  rewrite <- (filter_map_view (fun it : nat * ADef => (claim_label (ad_label (snd it)), match claim_kind (snd it) with KJson => true | _ => false end, ad_created (snd it), Some (fst it))) it_created).
-  rewrite <- (filter_map_view (fun it : nat * ADef => (claim_label (ad_label (snd it)), match claim_kind (snd it) with KJson => true | _ => false end, ad_created (snd it), Some (fst it))) (fun t => negb (it_created t))).
+  rewrite <- (filter_map_view (fun it : nat * ADef => (claim_label (ad_label (snd it)), match claim_kind (snd it) with KJson => true | _ => false end, claim_created (snd it), Some (fst it))) it_created).
+  rewrite <- (filter_map_view (fun it : nat * ADef => (claim_label (ad_label (snd it)), match claim_kind (snd it) with KJson => true | _ => false end, claim_created (snd it), Some (fst it))) (fun t => negb (it_created t))).
   reflexivity.
 Qed.
 
@@ -472,6 +472,14 @@ Proof. vm_compute. split; reflexivity. Qed.
 (* the label dispatch drops the version suffix of a custom label (known class F-USER-VERSION) and nothing else *)
 Lemma version_suffix_refuted : claim_label "com.acme.review.v2" = "com.acme.review".
 Proof. vm_compute. reflexivity. Qed.
+
+(* F-CW-CREATED: the created flag of a stds.schema-org.CreativeWork assertion is dropped; every other label keeps it *)
+Lemma creative_work_created_refuted :
+  claim_created (mkA "stds.schema-org.CreativeWork" true true) = false.
+Proof. reflexivity. Qed.
+
+Lemma created_kept : forall a, is_creative_work (ad_label a) = false -> claim_created a = ad_created a.
+Proof. intros a H. unfold claim_created. rewrite H. reflexivity. Qed.
 
 Definition plain_label (l : string) : Prop :=
   is_actions l = false /\ version_suffix_rev (rev_str l "") = None.
